@@ -56,7 +56,12 @@ fn main() {
 		"find" if args.len() >= 5 => {
 			let prop = get(&args[2]);
 			let cases = args.get(5).and_then(|s| s.parse().ok()).unwrap_or(20000);
-			runner::find_signature(prop.as_ref(), &args[3], runner::seed_from_env(), cases, Path::new(&args[4]))
+			let known = args.get(6).map(|s| s != "noknown").unwrap_or(true);
+			runner::find_signature(prop.as_ref(), &args[3], runner::seed_from_env(), cases, Path::new(&args[4]), known)
+		}
+		"shrink-hang" if args.len() >= 5 => {
+			let prop = get(&args[2]);
+			runner::shrink_hang(prop.as_ref(), Path::new(&args[3]), Path::new(&args[4]), 2)
 		}
 		"survey" if args.len() >= 3 => {
 			let prop = get(&args[2]);
